@@ -58,6 +58,39 @@ def main(tier):
             if bool(a) == bool(b):
                 chk.add_failure(d, {"what": "negate(p)(x) == p(x)", "value": repr(x), "p(x)": bool(a)}, None)
                 break
+    # ---- caller-owned parameters: a predicate built from a set the caller keeps (and later changes) and its negation
+    # must stay complements of each other -- set-valued predicates copy their argument, so neither may alias it
+    from predicate.set_predicates import (InPredicate, IsRealSubsetPredicate, IsRealSupersetPredicate, IsSubsetPredicate, IsSupersetPredicate,
+                                          NotInPredicate)
+
+    alias_cases = 0
+    for cls in (InPredicate, NotInPredicate, IsSubsetPredicate, IsRealSubsetPredicate, IsSupersetPredicate, IsRealSupersetPredicate):
+        for start, change in (({1, 2}, ("add", 3)), ({1, 2, 3}, ("discard", 2)), (set(), ("add", 1)), ({"a"}, ("add", "b"))):
+            owned = set(start)
+            try:
+                p = cls(owned)
+                q = negate(p)
+            except Exception as e:  # noqa: BLE001
+                chk.add_failure(f"{cls.__name__}({sorted(map(repr, start))})", {"what": f"constructor/negate raised {type(e).__name__}"}, None)
+                continue
+            getattr(owned, change[0])(change[1])  # the caller changes ITS set afterwards
+            probes = [1, 2, 3, "a", "b", set(), {1}, {1, 2}, {1, 2, 3}, {1, 3}, {"a"}, {"a", "b"}]
+            for x in probes:
+                try:
+                    a = p(x)
+                except Exception:  # noqa: BLE001
+                    continue
+                try:
+                    b = q(x)
+                except Exception:  # noqa: BLE001
+                    continue
+                alias_cases += 1
+                if bool(a) == bool(b):
+                    chk.add_failure(f"{cls.__name__}(s) with s = {sorted(map(repr, start))}, then s.{change[0]}({change[1]!r})",
+                                    {"what": "after the caller changed its own set, p and negate(p) are no longer complements (a parameter is aliased, not copied)", "value": repr(x), "p(x)": bool(a), "negate(p)(x)": bool(b)}, None)
+                    break
+    chk.evaluations += alias_cases
+    chk.extra["caller_owned_set_cases"] = alias_cases
     chk.extra["value_checks"] = checked
     chk.extra["predicate_classes_covered"] = sorted(kinds)
     chk.rule = (
